@@ -126,6 +126,11 @@ def gen(seed, idx, tier):
     elif cls == "empty-terminal":
         scn["device"]["terminals"][-1]["inside"] = True
         scn["allow_empty_terminal"] = True
+        r2 = substream(seed, idx, "c19-shared-mesh")
+        if r2.random() < 0.5:
+            # the ill-posed device re-uses the mesh of a well-posed sibling (same film and holes, the terminal
+            # where it belongs) that was looked at or simulated on first
+            scn["mesh_shared_with_wellposed"] = {"used": r2.random() < 0.5}
     elif cls == "seed-mismatch":
         defect["seed_change"] = rnd.choice(["film", "layer", "probes", "terminals", "holes", "name", "hole-moved", "one-terminal-less", "inplace-layer", "inplace-layer", "inplace-move"])
     elif cls == "A-shape":
